@@ -266,10 +266,12 @@ def rule_m2(ck, prog):
         kdef = inits.get(ksrc, ksrc) if klen.k == "DeclRefExpr" else ksrc
         exp_len = "%s-1" % plen if is_hash else plen
         if kdef != exp_len:
+            kdef = P.resolve_text(ps, klen)          # through locals and conditional operators, as decided on this path
+        if kdef != exp_len:
             probs.append("the long form is compared over `%s` (= %s), expected %s" % (ksrc, kdef, exp_len))
         sa = C.call_args(shorts[0])
         slsrc = sa[1].strip_all_casts().src.replace(" ", "")
-        if sa[0].strip_all_casts().get("path") != pat or inits.get(slsrc, slsrc) != exp_len:
+        if sa[0].strip_all_casts().get("path") != pat or (inits.get(slsrc, slsrc) != exp_len and P.resolve_text(ps, sa[1]) != exp_len):
             probs.append("the short form is searched in (%s, %s), expected (%s, %s)" % (sa[0].src, sa[1].src, pat, exp_len))
         for i_, c in enumerate(cmps):
             a = C.call_args(c)
